@@ -236,7 +236,69 @@ def mkfiles(tier):
     for name, data in nv.items():
         p = vlib.write_file('c13_nv_' + name + '.bin', data)
         F['nv_' + name] = (p, {'bytes': len(data), 'links': []})
+    # every page x 14 Ogg-level mutation operators (one deviation) on the 2-link and the 3-link chain
+    for fname in ('chain2', 'chain3'):
+        pages = vlib.parse_pages(open(F[fname][0], 'rb').read())
+        serials = sorted(set(p.serial for p in pages))
+        for i in range(len(pages)):
+            for op in PAGE_OPS:
+                data = page_mutation(pages, i, op, serials)
+                if data is None:
+                    continue
+                p = vlib.write_file(f'c13_pm_{fname}_{i}_{op}.bin', data)
+                F[f'pm_{fname}_{i}_{op}'] = (p, {'bytes': len(data), 'links': [], 'op': op})
     return F
+
+
+PAGE_OPS = ['dup', 'swap', 'bos', 'eos', 'cont', 'serial', 'collide', 'crc', 'gran-1', 'gran0', 'granbig', 'cutbody', 'seq', 'version']
+
+
+def page_mutation(pages, i, op, serials):
+    pg = [p.copy() for p in pages]
+    q = pg[i]
+    raw = None
+    if op == 'dup':
+        pg.insert(i + 1, q.copy())
+    elif op == 'swap':
+        if i + 1 >= len(pg):
+            return None
+        pg[i], pg[i + 1] = pg[i + 1], pg[i]
+    elif op == 'bos':
+        q.flags ^= 2
+    elif op == 'eos':
+        q.flags ^= 4
+    elif op == 'cont':
+        q.flags ^= 1
+    elif op == 'serial':
+        q.serial += 1000
+    elif op == 'collide':
+        others = [s for s in serials if s != q.serial]
+        if not others:
+            return None
+        q.serial = others[0]
+    elif op == 'crc':
+        raw = q.encode(fixcrc=False, crc=0x12345678)
+    elif op == 'gran-1':
+        q.gran = -1
+    elif op == 'gran0':
+        q.gran = 0
+    elif op == 'granbig':
+        q.gran = 1 << 62
+    elif op == 'cutbody':
+        keep, tot = [], 0
+        for l in q.lacing:
+            if tot + l > len(q.body) // 2:
+                break
+            keep.append(l)
+            tot += l
+        if not keep or len(keep) == len(q.lacing):
+            return None
+        q.lacing, q.body = keep, q.body[:tot]
+    elif op == 'seq':
+        q.seq += 1
+    elif op == 'version':
+        q.version = 1
+    return b''.join((raw if (raw is not None and p is q) else p.encode()) for p in pg)
 
 
 SEEKS = ['rs', 'ps', 'pp', 'ts', 'tp', 'rl', 'pl', 'ql', 'tl', 'ul']
@@ -319,6 +381,12 @@ def vf_static_cases(tier, F):
             for mode, api in (('s', 'o'), ('s', 't'), ('n', 'o'), ('s', 'T')):
                 for o in ('-', 'R'):
                     cs.append(vf_case(F[fname][0], f'G{g}', mode, api, '-', o, {'file': fname, 'sub': 'garbage'}))
+    # Ogg-level page mutations
+    for fname in F:
+        if fname.startswith('pm_'):
+            for mode, api in (('s', 'o'), ('s', 't'), ('n', 'o')):
+                for o in (('-', 'R', 'r+ps:800+r') if mode == 's' else ('-', 'R')):
+                    cs.append(vf_case(F[fname][0], '-', mode, api, '-', o, {'file': fname, 'sub': 'pagemut'}))
     # non-Vorbis and odd physical streams
     for fname in F:
         if fname.startswith('nv_'):
@@ -383,7 +451,7 @@ def judge_vf(m, r, k):
         parts = m['dev'].split(';')
         devk = '+'.join(p.split(':')[1] + ('p' if p.split(':')[2] == '1' else '1') for p in parts) + ('@' + m.get('phase', '?')) + ('!' if int(k['hits']) > 0 else '?')
     opk = re.sub(r':-?\d+', '', m['ops'])
-    cls = ('vf', m['sub'], m['mode'] + m['api'], 'E' if m['edit'] == '-' else m['edit'][0], devk, 'open=' + opn, opk + '=' + opsrc)
+    cls = ('vf', m['sub'], m['mode'] + m['api'], (m['file'].rsplit('_', 1)[1] if m['sub'] == 'pagemut' else 'E') if m['edit'] == '-' else m['edit'][0], devk, 'open=' + opn, opk + '=' + opsrc)
     lb, ln, mid = int(k['leakB']), int(k['leakN']), int(k['mid'])
     what = f"file {m['file']} edit {m['edit']} mode {m['mode']} api {m['api']} faults {m['dev']} ops {m['ops']}"
     open_ok = k['ok'] == '1'
@@ -422,6 +490,8 @@ class Run:
                       'close_failed_open': 0, 'close_ok_open': 0, 'fault_hits': 0, 'fault_not_applied': 0, 'dec_accepted_then_init_failed': 0, 'seek_failed': 0}
         self.per_space = {}
         self.cut = False
+        self.crash_violations = 0
+        self.early_stop = False
 
     def observe(self, key, sample):
         o = self.obs.setdefault(key, [0, sample])
@@ -437,19 +507,29 @@ class Run:
             if not idx:
                 continue
             exe = vlib.harness(flav, HARNESS)
-            CH_ = 24000
+            CH_ = 6000
             for a in range(0, len(idx), CH_):
                 if self.chk.deadline and time.time() > self.chk.deadline:
                     self.cut = True
+                    break
+                if self.crash_violations > 300:
+                    # fail fast: the tree is plainly broken (hundreds of double frees / crashes in clear); every further case would
+                    # only produce one more sanitizer report.  Reported as exhaustive:false.
+                    self.cut = True
+                    self.early_stop = True
                     break
                 part = idx[a:a + CH_]
                 res = vlib.run_cases(exe, [cases[i][0] for i in part], ['--timeout', str(timeout)], tag=tag)
                 for i, r in zip(part, res):
                     out[i] = r
+                    if r and r.startswith('DIED how='):
+                        kq = kv(r)
+                        if kq.get('stage') == 'clear' or any(x in r for x in FREE_KINDS):
+                            self.crash_violations += 1
         ret = []
         for (c, m), r in zip(cases, out):
             if r is None:
-                ret.append((m, '', None))      # not executed (deadline)
+                ret.append((m, '', None))      # not executed (deadline / early stop)
                 continue
             k = self.judge(c, m, r)
             ret.append((m, r, k))
@@ -472,15 +552,23 @@ class Run:
                 key = f"timeout:enc:stage={kq.get('stage')}"
             self.observe(key, c)
             return None
-        if r.startswith('DIED') or r.startswith('NOOUTPUT') or not r.startswith('ok'):
+        if r.startswith('DIED rc=') or r.startswith('BADCASE') or r.startswith('NOOUTPUT'):
+            # the executor itself failed (missing input file, malformed case): a broken check, never a verdict
+            self.exec_fail = getattr(self, 'exec_fail', 0) + 1
+            if self.exec_fail <= 3:
+                chk.guard(False, f'executor failure on case "{c}": {r[:200]}')
+            return None
+        if not r.startswith('ok'):
             kq = kv(r)
             rep = r.split('report=', 1)[1] if 'report=' in r else r[:200]
             kind = rep.split(' ')[0]
             top = (kv(rep).get('top') or '').split(',')
             libtop = [f for f in top if f and not f.startswith('__') and f not in ('free', 'malloc', 'calloc', 'realloc', 'main', 'run_enc', 'run_dec', 'run_vf') and not f.startswith('wa_')]
-            is_free = any(x in kind for x in FREE_KINDS) or ('heap-use-after-free' in kind and kq.get('stage') == 'clear')
-            if is_free:
-                key = f"double_or_invalid_free:{m['space']}:{kind}:stage={kq.get('stage')}:in={libtop[0] if libtop else '?'}"
+            is_free = any(x in kind for x in FREE_KINDS)
+            if is_free or kq.get('stage') == 'clear':
+                # a double / invalid free anywhere, or any crash inside the (repeated) clear calls
+                what = 'double_or_invalid_free' if is_free else 'crash_in_clear_calls'
+                key = f"{what}:{m['space']}:{kind}:{kq.get('how')}:stage={kq.get('stage')}:in={libtop[0] if libtop else '?'}"
                 chk.violation(key, f"{c}: {r[:600]}", replay)
             else:
                 self.stats['crashes_other_property'] += 1
@@ -531,7 +619,7 @@ def run(tier):
     chk = vlib.Check(PID, tier, 'fault_enumeration')
     t0 = time.time()
     if tier == 'thorough':
-        chk.deadline = t0 + 21 * 60
+        chk.deadline = t0 + float(os.environ.get('C13_DEADLINE_MIN', '21')) * 60      # internal deadline: the run ends with exhaustive:false
     vlib.build('plain', 'asan')
     vlib.harness('plain', HARNESS)
     vlib.harness('asan', HARNESS)
@@ -550,7 +638,7 @@ def run(tier):
     if 'vf' in only:
         t = time.time()
         F = mkfiles(tier)
-        R.execute(vf_static_cases(tier, F), vf_to * 2, 'c13vf')
+        R.execute(vf_static_cases(tier, F), 3.0, 'c13vf')
         scn = vf_scenarios(tier, F)
         base = R.execute([vf_case(p, '-', mode, api, '-', ops, {'file': fn, 'sub': 'fault_base'}) for fn, p, mode, api, ops in scn], 10, 'c13vb')
         basemap = {}
@@ -604,6 +692,8 @@ def run(tier):
         pmap = {n: p for n, p, hl in streams}
         for m, r, k in res:
             if k is not None and m['mut'][0] == 'F' and k['acc'] == '111':
+                if tier == 'quick' and k['si'] != '0' and int(m['mut'].split(':')[1]) % 4:
+                    continue        # quick: of the flips that fail synthesis_init only every 4th bit position gets the extra stop-before-init path
                 for dec, cl in (((-1, 1), (0, 1)) if (tier == 'thorough' or k['si'] == '0') else ((-1, 1),)):
                     again.append((f"d {pmap[m['stream']]} {m['mut']} {dec} {cl}", {'space': 'dec', 'flav': 'asan', 'stream': m['stream'], 'mut': m['mut'], 'dec': dec, 'cl': cl}))
         R.execute(again, 3 if tier == 'quick' else 8, 'c13e')
@@ -627,6 +717,7 @@ def run(tier):
         'observations_for_other_properties': obs,
         'space_wall_s': times,
         'exhaustive': not R.cut,
+        'stopped_early_after_many_crash_violations': R.early_stop,
         'samples': samples,
         'rule': 'case = one usage path on the real library ending in the documented clear calls issued twice, run in a forked child with the wrapped allocator switched on before the first library call '
                 '(harness buffers from __real_malloc). (enc) channels x rates (one inside every template band + band edges) x quality steps, VBR one-step / two-step (+ every state-changing encoder ctl) and '
@@ -648,32 +739,43 @@ def run(tier):
         'LSan is not used as a second witness (ASAN_OPTIONS detect_leaks=0 is fixed in vlib)',
     ]
     st = R.stats
+    cut = R.cut
     chk.guard(st['peak_zero'] == 0, 'every judged case allocated > 0 bytes between baseline and clear')
     chk.guard(st['ovf'] == 0, 'allocator table never overflowed')
     if 'dec' in only:
-        chk.guard(st['rja'] > 0, 'some header was refused half-way after it had allocated')
-        chk.guard(st['dec_accepted_then_init_failed'] > 0 or tier == 'quick' and st['rja'] > 0, 'some corrupted setup header was accepted and then failed / passed vorbis_synthesis_init')
-        chk.guard(kinds.get('dec', 0) >= 10, 'decoder classes')
+        chk.guard(cut or st['rja'] > 0, 'some header was refused half-way after it had allocated')
+        chk.guard(cut or st['dec_accepted_then_init_failed'] > 0 or tier == 'quick' and st['rja'] > 0, 'some corrupted setup header was accepted and then failed / passed vorbis_synthesis_init')
+        chk.guard(cut or kinds.get('dec', 0) >= 10, 'decoder classes')
     if 'vf' in only:
-        chk.guard(st['open_failed_after_alloc'] > 0, 'some open failed after allocating')
-        chk.guard(st['open_failed_second_stage'] > 0, 'some ov_test_open failed after ov_test_callbacks had succeeded')
-        chk.guard(st['close_failed_open'] > 0 and st['close_ok_open'] > 0, 'close-count rule exercised for failed and for successful opens')
-        chk.guard(st['fault_hits'] > 0, 'callback faults were actually applied')
-        chk.guard(st['seek_failed'] > 0, 'some seek / read failed on an open handle')
-        chk.guard(kinds.get('vf', 0) >= 20, 'vorbisfile classes')
+        chk.guard(cut or st['open_failed_after_alloc'] > 0, 'some open failed after allocating')
+        chk.guard(cut or st['open_failed_second_stage'] > 0, 'some ov_test_open failed after ov_test_callbacks had succeeded')
+        chk.guard(cut or st['close_failed_open'] > 0 and st['close_ok_open'] > 0, 'close-count rule exercised for failed and for successful opens')
+        chk.guard(cut or st['fault_hits'] > 0, 'callback faults were actually applied')
+        chk.guard(cut or st['seek_failed'] > 0, 'some seek / read failed on an open handle')
+        chk.guard(cut or kinds.get('vf', 0) >= 20, 'vorbisfile classes')
     if 'enc' in only:
-        chk.guard(kinds.get('enc', 0) >= 20, 'encoder classes')
-        chk.guard(any(c[0] == 'enc' and 'rc-13' in c[4] for c in cls), 'rejected encoder set-ups were exercised')
+        chk.guard(cut or kinds.get('enc', 0) >= 20, 'encoder classes')
+        chk.guard(cut or any(c[0] == 'enc' and 'rc-13' in c[4] for c in cls), 'rejected encoder set-ups were exercised')
     return chk.finish()
 
 
 def replay(path):
     r = json.load(open(path))
     rp = r['replay']
-    vlib.build(rp['flavour'])
+    vlib.build('plain', rp['flavour'])
     exe = vlib.harness(rp['flavour'], HARNESS)
-    out = vlib.run_cases(exe, [rp['case']], ['--timeout', '20'], jobs=1, tag='c13r')[0] or 'NOOUTPUT'
-    print(rp['case'])
+    # regenerate the (deterministic) input files the case line refers to
+    if rp['case'].startswith('v '):
+        mkfiles('quick')
+    elif rp['case'].startswith('d '):
+        dec_streams('quick')
+    case = rp['case']
+    tk = case.split(' ')
+    if tk[0] in ('v', 'd'):
+        tk[1] = os.path.join(vlib.zoo_dir(), os.path.basename(tk[1]))     # the file as regenerated in the current build directory
+        case = ' '.join(tk)
+    out = vlib.run_cases(exe, [case], ['--timeout', '20'], jobs=1, tag='c13r')[0] or 'NOOUTPUT'
+    print(case)
     print(out)
     if not out.startswith('ok'):
         return 1
